@@ -237,8 +237,70 @@ func derive(in map[string]interface{}) map[string]interface{} {
 		snName,
 		mnc,
 		mcc)
-	prevDerived = &derived{ue: ue, autn: autn, rand: append([]byte{}, rand...), sn: snName, mnc: mnc, mcc: mcc}
 	out["res_star"], out["kamf"], out["knasint"], out["knasenc"], out["sn_name"] = hx(resStat), hx(ue.Kamf), hx(ue.KnasInt[:]), hx(ue.KnasEnc[:]), snName
+	// further challenges on the SAME context (re-authentication): what the UE answers and installs must be what a fresh
+	// context with the same subscription gives for those inputs. (a) a new RAND delivered in the same receive buffer,
+	// (b) the same RAND with another AUTN, (c) the same RAND and AUTN under another serving network name
+	rand0 := append([]byte{}, rand...)
+	if len(mnc) < 2 || mnc[len(mnc)-1] < '0' || mnc[len(mnc)-1] > '9' || len(rand) == 0 {
+		prevDerived = &derived{ue: ue, autn: autn, rand: rand0, sn: snName, mnc: mnc, mcc: mcc}
+		return out
+	}
+	type chal struct {
+		what     string
+		rand     []byte
+		autn     [16]uint8
+		sn, mnc2 string
+	}
+	autnB := autn
+	autnB[0] ^= 0x5a
+	autnB[5] ^= 0x01
+	otherMnc := mnc[:len(mnc)-1] + string('0'+(mnc[len(mnc)-1]-'0'+1)%10)
+	otherSn := strings.Replace(snName, "mnc0"+mnc, "mnc0"+otherMnc, 1)
+	if len(mnc) != 2 {
+		otherSn = strings.Replace(snName, "mnc"+mnc, "mnc"+otherMnc, 1)
+	}
+	follow := []string{}
+	for _, c := range []chal{{"a new RAND in the same buffer", nil, autn, snName, mnc}, {"the same RAND with another AUTN", rand0, autnB, snName, mnc},
+		{"the same RAND and AUTN under another serving network", rand0, autnB, otherSn, otherMnc}} {
+		var r []byte
+		if c.rand == nil {
+			for i := range rand {
+				rand[i] = rand0[len(rand0)-1-i] ^ 0xa7
+			}
+			r = rand
+		} else {
+			r = append([]byte{}, c.rand...)
+		}
+		want := func() (s string) {
+			defer func() {
+				if e := recover(); e != nil {
+					s = fmt.Sprint("panic: ", e)
+				}
+			}()
+			f := tglib.NewRanUeContext(ue.Supi, 1, ue.CipheringAlg, ue.IntegrityAlg)
+			f.AuthenticationSubs = tglib.GetAuthSubscription(str(in, "k"), str(in, "opc"), str(in, "op"))
+			x := f.DeriveRESstarAndSetKey(f.AuthenticationSubs, c.autn, append([]byte{}, r...), c.sn, c.mnc2, mcc)
+			return hx(x) + "/" + hx(f.Kamf) + "/" + hx(f.KnasInt[:]) + "/" + hx(f.KnasEnc[:])
+		}()
+		got := func() (s string) {
+			defer func() {
+				if e := recover(); e != nil {
+					s = fmt.Sprint("panic: ", e)
+				}
+			}()
+			x := ue.DeriveRESstarAndSetKey(ue.AuthenticationSubs, c.autn, r, c.sn, c.mnc2, mcc)
+			return hx(x) + "/" + hx(ue.Kamf) + "/" + hx(ue.KnasInt[:]) + "/" + hx(ue.KnasEnc[:])
+		}()
+		if got != want {
+			follow = append(follow, fmt.Sprintf("%s: this context gives %s, a fresh context with the same subscription gives %s", c.what, got, want))
+		}
+	}
+	copy(rand, rand0)
+	if len(follow) > 0 {
+		out["same_context_mismatch"] = follow
+	}
+	prevDerived = &derived{ue: ue, autn: autn, rand: rand0, sn: snName, mnc: mnc, mcc: mcc}
 	return out
 }
 
